@@ -25,7 +25,7 @@ ASSUMPTIONS = ["backward-error bound c*max(m,n)*eps*||L||_F*||U||_F with c = 100
 SHARDS = {"quick": 8, "thorough": 16}
 DECIDING = ["P_is_permutation", "L_unit_lower", "multipliers_le_1", "U_upper", "PA_eq_LU", "A_eq_LU_two_output",
             "two_output_L_is_row_permuted", "singular_loud_or_exact"]
-MUST_REACH = ["perm:noninvolutive", "perm:identity", "singular:raised"]
+MUST_REACH = ["perm:noninvolutive", "perm:identity", "singular:evaluated"]
 
 C = 100.0
 
@@ -256,9 +256,11 @@ def _singular(spec, ctx, R):
             res = D.quaternion_lu(A.copy(), return_p=mode)
         except Exception as e:
             ctx.hit("singular:raised", type(e).__name__)
+            ctx.hit("singular:evaluated")
             ctx.check("singular_loud_or_exact", True, site=site)
             continue
         ctx.hit("singular:returned")
+        ctx.hit("singular:evaluated")
         if mode:
             L, U, P = res
             lhs = refq.matmul(P, A)
